@@ -129,7 +129,7 @@ def hookDec (cid : Nat) (d : DNA) : Option Tmpl :=
     | 0 => some (.const (.str g))                                 -- StrId
     | 1 => intSeqDec g                                            -- IntSeq
     | 2 => match J.parse g with                                   -- Evolvable: from_json_str
-      | .ok j => jToTmpl j
+      | .ok j => if j.render == g then jToTmpl j else none         -- (J.parse ignores trailing text)
       | .error _ => none
     | 3 => some (.const (.str g))                                 -- BadEnc
     | 4 => if g.startsWith "x" then none else some (.const (.str g))   -- Raises
@@ -226,16 +226,24 @@ def handle (j : J) : J :=
           | none => .null)
         | _ => .null
       | _ => []
+    let trace : List (String × J) := match j.get? "trace", (j.get? "trace_dna").bind dnaOfJ with
+      | some (.arr ps), some td =>
+        (match ps.mapM tmplOfJ with
+         | some prims =>
+           let tl := Tmpl.node .list prims
+           [("trace", .obj [("spec", specToJ (dnaSpec W tl)), ("dec", resT (decode W tl td))])]
+         | none => [])
+      | _, _ => []
     match dnas, values with
     | some ds, some vs =>
-      .obj [("slots", .arr slots),
+      .obj (trace ++ [("slots", .arr slots),
             ("spec", specToJ spec),
             ("size", match size with | some n => .int n | none => .null),
             ("count", .int (specT W t).length),
             ("head_distinct", .bool (headDistinct W t)),
             ("wf", .bool (wfT t)),
             ("dnas", .arr (ds.map (perDna W filtered limit t))),
-            ("values", .arr (vs.map (perValue W t)))]
+            ("values", .arr (vs.map (perValue W t)))])
     | _, _ => bad "dnas/values"
 
 def main : IO Unit := driverLoop handle
